@@ -1038,6 +1038,9 @@ def _loc_ClassDef_type_params_brackets(self: fst.FST) -> tuple[fstloc | None, tu
 
     if after := (ast.bases or ast.keywords or ast.body):
         after_ln, after_col, _, _ = after[0].f.bloc  # .bloc because body[0] might start with a decorator
+
+        if after is ast.bases and (keywords := ast.keywords) and (kw_loc := keywords[0].f.loc)[:2] < (after_ln, after_col):  # a keyword can precede a starred base
+            after_ln, after_col, _, _ = kw_loc
     else:  # accomodate temporarily empty bodies
         after_ln = end_ln
         after_col = end_col
